@@ -375,6 +375,12 @@ func twoColumn(raw json.RawMessage, c *ucase) {
 					continue
 				}
 				got := new(big.Rat).Mul(big.NewRat(v, 1), factor(*now))
+				// the exact value in the unit the column ended up in, if it does not fit an int64: the recorded overflow finding
+				exact := new(big.Rat).Quo(want[i][j], factor(*now))
+				if got.Cmp(want[i][j]) != 0 && new(big.Rat).Abs(exact).Cmp(new(big.Rat).SetInt64(math.MaxInt64)) > 0 {
+					run.Violate("harmonise", "harmonise-overflow:int64", fmt.Sprintf("two columns: the value of profile %d column %d in %s exceeds int64 and wrapped to %d", i, j, p.SampleType[j].Unit, v), raw, nil)
+					continue
+				}
 				if got.Cmp(want[i][j]) != 0 {
 					run.Violate("harmonise", "twocolumn-totals", fmt.Sprintf("order %d: profile %d column %d (%s): physical value %s became %s (now %d %s)", order, i, j, spellOut(units[i][j]), want[i][j].FloatString(3), got.FloatString(3), v, p.SampleType[j].Unit), raw, nil)
 				}
